@@ -349,3 +349,26 @@ func TestK14_BSIMarshalDropsSign(t *testing.T) {
 		t.Fatalf("after MarshalBinary/UnmarshalBinary column 1 holds %d (exists=%v), want -5", v, ok)
 	}
 }
+
+// #19 C09/C05: AndAny on a full run chunk with array filters whose cardinalities add up to more than
+// 4096 but whose union is smaller stored a bitmap container below the array threshold.
+func TestD19_AndAnyFullRunScratchBitmap(t *testing.T) {
+	x := roaring.New()
+	x.AddRange(0, 65536)
+	x.RunOptimize()
+	f1, f2 := roaring.New(), roaring.New()
+	for v := uint32(0); v < 6000; v += 2 {
+		f1.Add(v)
+		f2.Add(v)
+	}
+	x.AndAny(f1, f2)
+	if !x.Equals(f1) {
+		t.Fatalf("AndAny result differs from the fold")
+	}
+	if err := x.Validate(); err != nil {
+		t.Fatalf("AndAny result does not validate: %v", err)
+	}
+	if _, err := x.ToBytes(); err != nil {
+		t.Fatalf("AndAny result cannot be serialized: %v", err)
+	}
+}
